@@ -554,7 +554,12 @@ func (a *asset) generateTimelineEntriesFromRef(refSE segEntries, repID string) s
 		return se
 	}
 
+	// The frame duration measured when the asset was loaded is what the segments are cut by
+	// (sampleDur only knows a few codec/timescale combinations and is 0 for the others).
 	sampleDur := uint64(rep.sampleDur())
+	if rep.ConstantSampleDuration != nil && *rep.ConstantSampleDuration != 0 {
+		sampleDur = uint64(*rep.ConstantSampleDuration)
+	}
 	timeScale := uint64(rep.MediaTimescale)
 
 	refTimescale := uint64(refSE.mediaTimescale)
